@@ -1574,6 +1574,82 @@ where
     Ok(())
 }
 
+// Cut stubs for the refused-open harnesses (vk_fsop::c07_open_r_*_cut): the
+// calls they replace must never happen when an open is refused, so they only
+// count; what truncation / entry creation do is decided by C16 / C03 harnesses.
+pub(crate) static mut CUT_TRUNC_CALLS: u32 = 0;
+pub(crate) static mut CUT_NEW_ENTRY_CALLS: u32 = 0;
+pub(crate) static mut CUT_WRITE_ENTRY_CALLS: u32 = 0;
+pub(crate) fn cut_calls() -> (u32, u32, u32) {
+    unsafe { (CUT_TRUNC_CALLS, CUT_NEW_ENTRY_CALLS, CUT_WRITE_ENTRY_CALLS) }
+}
+pub(crate) fn stub_cut_write_entry<D>(_this: &FatVolume, _bc: &mut BlockCache<D>, _entry: &DirEntry) -> Result<(), Error<D::Error>>
+where
+    D: BlockDevice,
+{
+    unsafe {
+        CUT_WRITE_ENTRY_CALLS += 1;
+    }
+    Ok(())
+}
+pub(crate) fn stub_cut_truncate<D>(_this: &mut FatVolume, _bc: &mut BlockCache<D>, _cluster: ClusterId) -> Result<(), Error<D::Error>>
+where
+    D: BlockDevice,
+{
+    unsafe {
+        CUT_TRUNC_CALLS += 1;
+    }
+    Ok(())
+}
+pub(crate) fn stub_cut_new_entry<D, T>(_this: &mut FatVolume, _bc: &mut BlockCache<D>, _ts: &T, _dir: ClusterId, _name: ShortFileName, _att: Attributes) -> Result<DirEntry, Error<D::Error>>
+where
+    D: BlockDevice,
+    T: TimeSource,
+{
+    unsafe {
+        CUT_NEW_ENTRY_CALLS += 1;
+    }
+    Err(Error::NotEnoughSpace)
+}
+
+pub(crate) static mut CUT_FIND_CALLS: u32 = 0;
+pub(crate) static mut CUT_FIND_FOUND: bool = false;
+pub(crate) fn cut_find_set(found: bool) {
+    unsafe {
+        CUT_FIND_FOUND = found;
+    }
+}
+pub(crate) fn cut_find_calls() -> u32 {
+    unsafe { CUT_FIND_CALLS }
+}
+/// lookup stub for the table-full harnesses: counts, and answers "plain closed
+/// file, cluster 3, 700 bytes" or NotFound as set by the harness
+pub(crate) fn stub_cut_find<D>(_this: &FatVolume, _bc: &mut BlockCache<D>, _dir: &DirectoryInfo, name: &ShortFileName) -> Result<DirEntry, Error<D::Error>>
+where
+    D: BlockDevice,
+{
+    unsafe {
+        CUT_FIND_CALLS += 1;
+        if !CUT_FIND_FOUND {
+            return Err(Error::NotFound);
+        }
+    }
+    let mut e = DirEntry::new(name.clone(), Attributes::create_from_fat(0x20), ClusterId(3), fixed_timestamp(), BlockIdx(G16A_ROOT), 0);
+    e.size = 700;
+    Ok(e)
+}
+/// entry-creation stub that succeeds (table-full harnesses)
+pub(crate) fn stub_cut_new_entry_ok<D, T>(_this: &mut FatVolume, _bc: &mut BlockCache<D>, _ts: &T, _dir: ClusterId, name: ShortFileName, att: Attributes) -> Result<DirEntry, Error<D::Error>>
+where
+    D: BlockDevice,
+    T: TimeSource,
+{
+    unsafe {
+        CUT_NEW_ENTRY_CALLS += 1;
+    }
+    Ok(DirEntry::new(name, att, ClusterId(0), fixed_timestamp(), BlockIdx(G16A_ROOT), 128))
+}
+
 /// length of the chain starting at `first` in `fat` (clusters 2..=5), 0 if malformed
 fn ghost_chain_len(fat: &[u32; 8], first: u32) -> usize {
     let mut c = first;
